@@ -154,7 +154,11 @@ def handlers(layout="scoped", max_rec=1, retry_max=2, handler_fails=False, reent
     hb = [G]
     if handler_fails:
         hb.append({"op": "fail", "until": 99, "exc": "KeyError"})
-    hb.append({"op": "ret", "ty": "A"} if reenter else {"op": "stop"})
+    if reenter == "send":
+        # re-enters the lineage with ctx.send_event (as it starts), returns None
+        hb = [{"op": "send", "ty": "A", "n": 1}, G, {"op": "none"}]
+    else:
+        hb.append({"op": "ret", "ty": "A"} if reenter else {"op": "stop"})
     if layout in ("scoped", "both"):
         steps["hs"] = {"accepts": ["Failed"], "role": "catch_error", "for_steps": ["b"], "max_rec": max_rec, "body": hb}
     if layout in ("wildcard", "both"):
@@ -424,6 +428,7 @@ def family(name, quick=True):
             for max_rec in (1, 2):
                 out.append(("handlers(%s,max_rec=%d)" % (layout, max_rec), handlers(layout, max_rec), []))
         out.append(("handlers(scoped,reenter,2)", handlers("scoped", 2, reenter=True), []))
+        out.append(("handlers(scoped,reenter by send_event,2)", handlers("scoped", 2, reenter="send"), []))
         out.append(("handlers_two_steps(max_rec=1)", handlers_two_steps(1), []))
         out.append(("handlers_two_steps(max_rec=2)", handlers_two_steps(2), []))
         out.append(("handlers(wildcard,handler_fails)", handlers("wildcard", 1, handler_fails=True), []))
